@@ -12,7 +12,7 @@ package bls12377
 //@ func G2Affine.setBytes
 //@ layer ring fp.Element
 //@ option nomerge
-//@ option opaque IsInSubGroup IsOnCurve Legendre Sqrt LexicographicallyLargest Square Mul Add Neg SetZero isZeroed
+//@ option opaque IsInSubGroup IsOnCurve Legendre Sqrt LexicographicallyLargest Square Mul Add Neg SetZero
 //@ option split-post
 //@ ghost canon1 = false
 //@ ghost canon2 = false
@@ -47,9 +47,11 @@ package bls12377
 //@ ensures[short] len(buf) < SizeOfG2AffineCompressed ==> !isnil(result1) && result0 == 0
 //@ ensures[reject-count] !isnil(result1) ==> result0 == 0
 //@ ensures[infinity] isnil(result1) && md == mCompressedInfinity ==> zeroed && result0 == SizeOfG2AffineCompressed
+//@ ensures[infinity-bytes] isnil(result1) && md == mCompressedInfinity ==> forall(j, 1, SizeOfG2AffineCompressed, buf[j] == 0)
 //@ ensures[valid-mask] isnil(result1) ==> md == mUncompressed || md == mUncompressedInfinity || md == mCompressedSmallest || md == mCompressedLargest || md == mCompressedInfinity
 //@ ensures[short-raw] (md == mUncompressed || md == mUncompressedInfinity) && len(buf) < SizeOfG2AffineUncompressed ==> !isnil(result1) && result0 == 0
 //@ ensures[infinity-raw] isnil(result1) && md == mUncompressedInfinity ==> zeroed && result0 == SizeOfG2AffineUncompressed
+//@ ensures[infinity-raw-bytes] isnil(result1) && md == mUncompressedInfinity ==> forall(j, 1, SizeOfG2AffineUncompressed, buf[j] == 0)
 //@ ensures[raw-canonical] isnil(result1) && md == mUncompressed ==> canon1 && canon2 && canon3 && canon4 && result0 == SizeOfG2AffineUncompressed
 //@ ensures[raw-on-curve] isnil(result1) && md == mUncompressed ==> (subGroupCheck && insub) || (!subGroupCheck && oncurve)
 //@ ensures[compressed-canonical] isnil(result1) && (md == mCompressedSmallest || md == mCompressedLargest) ==> canon1 && canon2 && result0 == SizeOfG2AffineCompressed
